@@ -1,6 +1,55 @@
 From Coq Require Import List NArith Bool.
-From LTV.C17 Require Import Model Proofs.
+From LTV.C17 Require Import Model Proofs ProofsA ProofsB.
+Import ListNotations.
 
+(* bit layout of the id word re-extracted from thread.cc / common.h *)
 Theorem params_ok_now : Proofs.params_ok = true.
 Proof. exact Proofs.params_ok_now. Qed.
 Print Assumptions params_ok_now.
+
+(* ALL programs, bodies, schedules: in every reachable state in which no count overflow was thrown,
+   every thread's pending-operation stack has the shape of ProofsA.shape: at most one callback is
+   being executed per thread, m_callback_processing_id is exactly that callback's id, a post /
+   cancel in progress sits on top of it. *)
+Theorem shape_invariant : forall progs nids bds c,
+  reachable (init progs nids bds) c -> crashed c = false -> Forall wf_thread (threads c).
+Proof. exact ProofsB.reachable_wf. Qed.
+Print Assumptions shape_invariant.
+
+Theorem in_callback_shape : forall progs nids bds c t th u,
+  reachable (init progs nids bds) c -> crashed c = false ->
+  nth_error (threads c) t = Some th -> cur th = Some u ->
+  exists pre b e es oi p,
+    todo th = pre ++ map ICmd b ++ IRet e :: IBatch es oi :: map ICmd p /\ e_uid e = u /\ proc th = e_id e /\
+    (forall x, In x pre -> is_micro x = true \/ (exists i, x = IDlAdd i) \/ (exists i, x = IDlCancel i)).
+Proof. exact ProofsB.in_callback_shape. Qed.
+Print Assumptions in_callback_shape.
+
+(* ALL schedules from ANY configuration: the (ghost, unbounded) generation of every id never decreases *)
+Theorem generation_monotone : forall sched c, ids_le (ids c) (ids (run c sched)).
+Proof. exact ProofsB.run_gen_monotone. Qed.
+Print Assumptions generation_monotone.
+
+(* cancel_final is FALSE for the two-argument form when the caller is inside a callback of the id
+   (0x8 handshake path): computed witness, replayed on the real code by corpus/C17/refuted.case *)
+Theorem cancel_final_two_arg_refuted :
+  exists progs bds nids sched u t i,
+    let c := run (init progs nids bds) sched in
+    crashed c = false /\ In u (fin2 c) /\ runs_after_cancel (rev (log c)) u t i = true.
+Proof. exact ProofsB.cancel_final_two_arg_refuted. Qed.
+Print Assumptions cancel_final_two_arg_refuted.
+
+(* mutual cancellation through the single-argument form deadlocks (why the two-argument form exists) *)
+Theorem single_arg_mutual_cancel_deadlocks :
+  exists sched, let c := run (init dead_progs 1 dead_bodies) sched in
+    finished c = false /\ enabled c 0 = false /\ enabled c 1 = false.
+Proof. exact ProofsB.single_arg_mutual_cancel_deadlocks. Qed.
+Print Assumptions single_arg_mutual_cancel_deadlocks.
+
+(* finite instance (bound in the statement): from the reachable state in which both threads are inside a
+   callback of the shared id and about to call cancel_callback_and_wait(id, other), every maximal
+   interleaving finishes both threads within 40 steps *)
+Theorem mutual_cancel_no_deadlock_instance :
+  reachable (init dead_progs 1 mut_bodies) mut_mid /\ all_paths_finish 40 mut_mid = true.
+Proof. exact ProofsB.mutual_cancel_no_deadlock_instance. Qed.
+Print Assumptions mutual_cancel_no_deadlock_instance.
